@@ -16,7 +16,7 @@ import ast
 import itertools
 from dataclasses import dataclass
 
-from ..model import Func, ancestors, parent, unparse, walk_no_nested
+from ..model import Func, ancestors, unparse, walk_no_nested
 
 # --------------------------------------------------------------------------- basics
 
@@ -45,6 +45,13 @@ def is_const(e: ast.AST | None, value) -> bool:
 
 def shadowed(f: Func, name: str) -> bool:
     """`name` is rebound in f (param/local) or at module level (def/class/assignment/import)."""
+    cache = f.__dict__.setdefault("_utilA_shadow", {})
+    if name not in cache:
+        cache[name] = _shadowed(f, name)
+    return cache[name]
+
+
+def _shadowed(f: Func, name: str) -> bool:
     g: Func | None = f
     while g is not None:
         if name in g.params:
@@ -99,7 +106,8 @@ def resolves_to(prog, f: Func, call: ast.AST | None, *names: str) -> bool:
 
 
 def same(a: ast.AST | None, b: ast.AST | None) -> bool:
-    return a is not None and b is not None and ast.dump(a) == ast.dump(b)
+    """Structural equality ignoring Load/Store context and formatting."""
+    return a is not None and b is not None and unparse(a) == unparse(b)
 
 
 # --------------------------------------------------------------------------- scoped binders
@@ -108,7 +116,6 @@ def same(a: ast.AST | None, b: ast.AST | None) -> bool:
 def scoped_binding(name: ast.Name):
     """If `name` is bound by an enclosing comprehension or lambda return
     ('comp', comprehension, index|None) / ('lambda', Lambda, position); else None."""
-    prev: ast.AST = name
     for a in ancestors(name):
         if isinstance(a, (ast.FunctionDef, ast.AsyncFunctionDef, ast.ClassDef)):
             return None
@@ -120,7 +127,6 @@ def scoped_binding(name: ast.Name):
             for gen in a.generators:
                 for idx in _target_index(gen.target, name.id):
                     return ("comp", gen, idx)
-        prev = a
     return None
 
 
@@ -371,7 +377,12 @@ def tag_canon(f: Func, e: ast.AST, nid: int | None, depth: int = 6) -> str:
     if isinstance(e, ast.Name) and scoped_binding(e) is None and nid is not None:
         ds = rdefs(f, e.id, nid, use=e)
         if len(ds) == 1 and ds[0].kind in ("assign", "walrus") and ds[0].index is None:
-            return tag_canon(f, ds[0].value, ds[0].nid, depth - 1)
+            v = strip_await(ds[0].value)
+            # only tag-building definitions are looked through; a call / attribute is a leaf named by the local
+            if isinstance(v, (ast.Name, ast.JoinedStr, ast.Subscript)) or (isinstance(v, ast.BinOp) and isinstance(v.op, ast.Add)) or join_dot(v) is not None or (
+                isinstance(v, ast.Call) and isinstance(v.func, ast.Name) and v.func.id == "str"
+            ):
+                return tag_canon(f, v, ds[0].nid, depth - 1)
         return f"<{e.id}>"
     seq = join_dot(e)
     if seq is not None:
@@ -561,3 +572,142 @@ def in_subtree(node: ast.AST, root: ast.AST) -> bool:
 
 def in_body(node: ast.AST, stmts: list[ast.stmt]) -> bool:
     return any(in_subtree(node, s) for s in stmts)
+
+
+# --------------------------------------------------------------------------- equality tests inside guards
+
+
+def compare_conjuncts(test: ast.AST) -> list[tuple[ast.Compare, str]]:
+    """Single-operator comparisons of a guard together with the branch on which `left == right`
+    is known to hold: 't'/'f', or 'op:<Name>' for an operator other than ==/!= (reported as if it were
+    meant to hold on the true branch).  `a and (x == y)` -> 't'; `x != y` -> 'f'; `x != y or b` -> 'f';
+    `not (...)` flips."""
+    if isinstance(test, ast.Compare) and len(test.ops) == 1:
+        op = test.ops[0]
+        if isinstance(op, ast.Eq):
+            return [(test, "t")]
+        if isinstance(op, ast.NotEq):
+            return [(test, "f")]
+        return [(test, "op:" + type(op).__name__)]
+    if isinstance(test, ast.BoolOp):
+        keep = "t" if isinstance(test.op, ast.And) else "f"
+        out = []
+        for v in test.values:
+            for c, e in compare_conjuncts(v):
+                if e == keep or e.startswith("op:"):
+                    out.append((c, e))
+        return out
+    if isinstance(test, ast.UnaryOp) and isinstance(test.op, ast.Not):
+        return [(c, {"t": "f", "f": "t"}.get(e, e)) for c, e in compare_conjuncts(test.operand)]
+    return []
+
+
+def fire_edge(e: str) -> str:
+    return e if e in ("t", "f") else "t"
+
+
+def guarded_init(f: Func, g, store_id: int, container: ast.AST, key: ast.AST) -> bool:
+    """The (re-)initialisation `container[key] = <empty>` at CFG node `store_id` only happens when
+    `key not in container` (a dominating membership test whose matching branch leads to the store)."""
+    for t in g.nodes.values():
+        if t.kind != "test" or not g.dominates(t.id, store_id):
+            continue
+        for x in ast.walk(t.ast):
+            if isinstance(x, ast.Compare) and len(x.ops) == 1 and isinstance(x.ops[0], (ast.In, ast.NotIn)) and same(x.left, key) and same(x.comparators[0], container):
+                edge = "t" if isinstance(x.ops[0], ast.NotIn) else "f"
+                node, nots, plain = x, 0, True
+                while node is not t.ast:
+                    node = getattr(node, "_parent", None)
+                    if node is None:
+                        plain = False
+                        break
+                    if isinstance(node, ast.UnaryOp) and isinstance(node.op, ast.Not):
+                        nots += 1
+                    elif not (isinstance(node, ast.BoolOp) and isinstance(node.op, ast.And) and edge == "t" and nots == 0):
+                        plain = False
+                        break
+                if not plain:
+                    continue
+                if nots % 2:
+                    edge = "f" if edge == "t" else "t"
+                if only_via(g, t.id, edge, store_id):
+                    return True
+    return False
+
+
+def test_compares(f: Func, t) -> list[tuple[ast.Compare, str]]:
+    """compare_conjuncts of CFG test node `t`, looking through a local boolean
+    (`complete = len(a) == n` ... `if complete:`)."""
+    e = t.ast
+
+    def expand(x, depth=3):
+        if depth > 0 and isinstance(x, ast.Name):
+            o = single_origin(f, x, t.id)
+            if o is not None and not isinstance(o, ast.Name):
+                return expand(o, depth - 1)
+            return x
+        if isinstance(x, ast.BoolOp):
+            return ast.BoolOp(op=x.op, values=[expand(v, depth) for v in x.values])
+        if isinstance(x, ast.UnaryOp) and isinstance(x.op, ast.Not):
+            return ast.UnaryOp(op=x.op, operand=expand(x.operand, depth))
+        return x
+
+    return compare_conjuncts(expand(e))
+
+
+def awaited(call: ast.AST) -> bool:
+    return isinstance(getattr(call, "_parent", None), ast.Await)
+
+
+# --------------------------------------------------------------------------- whole-program call index (one pass, cached per Program)
+
+
+def calls_named(prog, name: str):
+    """All call sites `<anything>.name(...)` / `name(...)` of the program (same answer as
+    prog.calls_by_attr).  The index is built per module and cached on the Module object, which
+    self-test variant programs share for every module they do not override."""
+    out = []
+    for m in prog.modules.values():
+        if m.relpath.startswith("streamflow/cwl/antlr/"):
+            continue
+        idx = m.__dict__.get("_utilA_calls")
+        if idx is None:
+            idx = {}
+            for fn in ast.walk(m.tree):
+                if isinstance(fn, (ast.FunctionDef, ast.AsyncFunctionDef)) and hasattr(fn, "_qn"):
+                    for c in walk_no_nested(fn):
+                        if isinstance(c, ast.Call):
+                            k = c.func.attr if isinstance(c.func, ast.Attribute) else (c.func.id if isinstance(c.func, ast.Name) else None)
+                            if k is not None:
+                                idx.setdefault(k, []).append((fn._qn, c))
+            m.__dict__["_utilA_calls"] = idx
+        for qn, c in idx.get(name, []):
+            f = prog.functions.get(qn)
+            if f is not None:
+                out.append((f, c))
+    return out
+
+
+# --------------------------------------------------------------------------- anchors
+
+
+def require_members(ctx, cls_q: str, methods=(), attrs=()):
+    """The class (through its MRO) still defines the methods and assigns the `self.<attr>` fields a
+    rule keys on; a renamed/vanished member is an analysis error, never a finding."""
+    prog = ctx.prog
+    prog.cls(cls_q)  # AnchorError when the class vanished
+    for m in methods:
+        ctx.require(prog.resolve_method(cls_q, m) is not None, f"anchor {cls_q}.{m} not found (renamed?)")
+    if attrs:
+        found = set()
+        for k in prog.mro(cls_q):
+            c = prog.classes.get(k)
+            if c is None:
+                continue
+            for n in ast.walk(c.node):
+                if isinstance(n, ast.Attribute) and isinstance(n.value, ast.Name) and n.value.id == "self" and isinstance(n.ctx, ast.Store):
+                    found.add(n.attr)
+                elif isinstance(n, ast.AnnAssign) and isinstance(n.target, ast.Name):
+                    found.add(n.target.id)
+        for a in attrs:
+            ctx.require(a in found, f"anchor field {cls_q}.{a} not found (renamed?)")
